@@ -257,7 +257,7 @@ func (s *Summ) bypassPath(fn *ssa.Function, start Point, ev map[ssa.Instruction]
 // addLoopEvents: a for-each loop whose body passes an event on every iteration
 // counts as an event itself (its header's exit branch is added to ev), i.e.
 // "the collection is not empty" is assumed, innermost loops first.
-func addLoopEvents(P *Prog, fn *ssa.Function, evAll map[ssa.Instruction]bool, blocked func(*ssa.BasicBlock, int) bool) {
+func addLoopEvents(P *Prog, fn *ssa.Function, evAll map[ssa.Instruction]bool, blocked func(*ssa.BasicBlock, int) bool, ignoreReturn ...func(ssa.Instruction) bool) {
 	for _, lp := range naturalLoops(fn) {
 		if lp.exitIf == nil {
 			continue
@@ -269,10 +269,19 @@ func addLoopEvents(P *Prog, fn *ssa.Function, evAll map[ssa.Instruction]bool, bl
 			if in.Block() == lp.header && in == lp.header.Instrs[0] {
 				return true
 			}
-			if !lp.blocks[in.Block()] && in == in.Block().Instrs[0] {
+			// the loop's own exit (reached by break or by the header) — blocks that merely lead to a return are followed to it
+			if lp.exitBlock != nil && in.Block() == lp.exitBlock && in == in.Block().Instrs[0] {
 				return true
 			}
-			return isReturn(in)
+			if isReturn(in) {
+				for _, ig := range ignoreReturn {
+					if ig(in) {
+						return false
+					}
+				}
+				return true
+			}
+			return false
 		})
 		if hit == nil && loopHasEvent(lp, evAll) {
 			evAll[lp.exitIf] = true
@@ -294,6 +303,7 @@ type loop struct {
 	blocks    map[*ssa.BasicBlock]bool
 	exitIf    *ssa.If // header terminator when the header decides between body and exit
 	bodyEntry *ssa.BasicBlock
+	exitBlock *ssa.BasicBlock
 }
 
 // naturalLoops finds loops by back edges (t -> h with h dominating t), innermost first.
@@ -329,9 +339,9 @@ func naturalLoops(fn *ssa.Function) []*loop {
 			if in0 != in1 {
 				lp.exitIf = iff
 				if in0 {
-					lp.bodyEntry = h.Succs[0]
+					lp.bodyEntry, lp.exitBlock = h.Succs[0], h.Succs[1]
 				} else {
-					lp.bodyEntry = h.Succs[1]
+					lp.bodyEntry, lp.exitBlock = h.Succs[1], h.Succs[0]
 				}
 			}
 		}
